@@ -31,6 +31,9 @@ RULE = (
     " A table containing cells whose OIDs collide in the low 32 bits of their string hash und"
     "er the shard's own hash seed (searched at run time)."
     " Cells whose OIDs collide under zlib.crc32 / zlib.adler32."
+    ' Every generated table is also built by hand: walk / bulk walk + tablify(num_base_nodes='
+    "), tablify(base_oid='1.3...'), tablify(base_oid='.1.3...'). A v1 fetch whose only reques"
+    "t is answered noSuchName is C08's matter and not judged."
 )
 ASSUMPTIONS = [
     "table() is addressed by the entry OID and bulktable() by the table OID, as their documentation and tests prescribe",
